@@ -217,6 +217,40 @@ def has_phase_params(f):
     return any(p in PHASE_NAMES for p in f.params) or (f.cls is not None)
 
 
+def _reduced_wherever_read(f, comp):
+    """The phase accumulated by `comp` is never reduced there; True if every read of it outside that statement sits inside an
+    expression taken % 4 (e.g. `return gs_out, ps_out % 4`, `((pa - p) % 4) // 2`)."""
+    tgt = comp.target if isinstance(comp, ast.AugAssign) else comp.targets[0]
+    root = tgt
+    while isinstance(root, (ast.Subscript, ast.Attribute)):
+        root = root.value
+    if not isinstance(root, ast.Name):
+        return False
+    name = root.id
+    parent = {}
+    for n in ast.walk(f.node):
+        for c in ast.iter_child_nodes(n):
+            parent[id(c)] = n
+    inside = {id(n) for n in ast.walk(comp)}
+    reads = [n for n in ast.walk(f.node) if isinstance(n, ast.Name) and n.id == name and isinstance(n.ctx, ast.Load) and id(n) not in inside]
+    if not reads:
+        return False
+    for r in reads:
+        n, ok = r, False
+        while id(n) in parent and not isinstance(n, ast.stmt):
+            n = parent[id(n)]
+            if isinstance(n, ast.BinOp) and isinstance(n.op, ast.Mod) and isinstance(n.right, ast.Constant) and n.right.value == 4:
+                ok = True
+                break
+        if not ok:
+            # a read that only re-initialises or stores into the accumulator itself is not an escape
+            st = n
+            if isinstance(st, ast.Assign) and all(norm(t).split('[')[0] == name for t in st.targets):
+                continue
+            return False
+    return True
+
+
 def check_site(run, site, order=None, rule='R7'):
     """Check clauses (a),(b),(d),(e) and, when `order` is given, (c).
     order: None | 'acc_left' | 'params' | ('rotate', generator_param)"""
@@ -245,7 +279,13 @@ def check_site(run, site, order=None, rule='R7'):
     run.ok(rule + 'a', f, site.st, 'companion: ' + norm(comp)[:120])
     # (d) closure
     run.check(site.reduced, rule + 'd', f, site.st, 'string product is not reduced % 2: entries leave {0,1}')
-    inner, red4 = strip_mod(comp.value, 4)
+    comp_value = comp.value
+    if isinstance(comp, ast.AugAssign) and isinstance(comp.op, ast.Add):
+        comp_value = ast.BinOp(left=comp.target, op=ast.Add(), right=comp.value)       # x += e is x = x + e
+    inner, red4 = strip_mod(comp_value, 4)
+    if not red4:
+        # the reduction may be deferred: it is enough that every other read of the accumulated phase is taken % 4
+        red4 = _reduced_wherever_read(f, comp)
     run.check(red4, rule + 'd', f, comp, 'phase of the product is not reduced % 4: the phase drifts out of {0,1,2,3}')
     # (b) read before overwrite
     if site.acc is not None:
